@@ -2,6 +2,11 @@
 // objects of every kind; harness objects count the calls they receive and may
 // refuse a reference, library objects are alive iff their allocation is.
 #include "worlds/common.hpp"
+#define protected public
+#define private public
+#include "io.h"
+#undef protected
+#undef private
 #include "kernel/simio.hpp"
 #include <fcntl.h>
 #include <unistd.h>
@@ -56,7 +61,15 @@ struct RefsWorld : World {
 		       "\"C++ reference<T> copy/assign/detach\",\"_mpt_buffer_alloc vtable addref/unref + mpt_array_clone\",\"mpt_reply_deferrable context\",\"mpt_rawdata_create (mptplot)\",\"mpt_stream_input (destruction observed as close of its simulated descriptor)\",\"C++ metatype::generic\"],"
 		       "\"stub\":[\"harness metatype objects counting addref/unref, refusing a reference when the plan says so\",\"allocator (ledger + n-th allocation fails)\",\"holder-count reference model\"]}";
 	}
-	RefsWorld() { mpt_meta_reference_traits(); mpt_type_traits('c'); }
+	RefsWorld() {
+		mpt_meta_reference_traits(); mpt_type_traits('c');
+		// lazily created process-global state of the further object kinds
+		mpt_input_type_traits();
+		{ input *in = mpt_output_remote(); if (in) in->unref(); }
+		{ io::stream::input *in = io::stream::input::create(0); if (in) { in->convert(0, 0); in->unref(); } }
+		{ mpt::path pp; pp.sep = '.'; pp.assign = 0; mpt_path_set(&pp, "refs.view", -1); metatype *m = mpt_config_global(&pp); if (m) m->unref(); mpt_config_set(0, 0, 0, '.', 0); }
+		{ std::string t(300, 'm'); const char *cs = t.c_str(); value v; v.set('s', &cs); metatype *m = mpt_meta_new(&v); if (m) m->unref(); }
+	}
 	void gen(Rng &r, Plan &p, int tier) override {
 		int nops = (int) r.range(1, tier ? 100 : 50);
 		bool allocf = r.chance(1, 3), refuse = r.chance(1, 2);
@@ -80,7 +93,10 @@ struct RefsWorld : World {
 		const type_traits *rt = mpt_meta_reference_traits();
 		reference<HObj> *cref[2] = {new reference<HObj>(), new reference<HObj>()};
 		// library objects: 0 reply context, 1 raw data, 2 generic metatype, 3 stream input; holders counted in lib_model
-		metatype *lib[4] = {0, 0, 0, 0}; long lib_model[4] = {0, 0, 0, 0}; int lib_fd = -1; bool lib_counted[4] = {true, true, true, true};
+		// 4 text metatype (inline), 5 text metatype (300 bytes: buffer backed), 6 metatype view of an array, 7 remote output, 8 C++ io::stream input, 9 sub-tree view of the global configuration
+		enum { NK = 10 };
+		metatype *lib[NK] = {0}; long lib_model[NK] = {0}; int lib_fd = -1; bool lib_counted[NK]; for (auto &b : lib_counted) b = true;
+		// (kinds 4-6 and 8 are created with operator new inside the C++ layer, which the ledger sees as well)
 		CArr bufh[3]; for (auto &b : bufh) b.buf = 0;                 // buffers: handles sharing one buffer
 		auto idx = [&](metatype *m) -> int { for (int i = 0; i < 3; ++i) if (m == obj[i]) return i; return -1; };
 		auto array_holds = [&](CArr &a, long cnt[3]) { if (!a.buf) return; metatype **e = (metatype **) (a.buf + 1); size_t n = a.buf->_used / sizeof(*e); for (size_t k = 0; k < n; ++k) { int i = idx(e[k]); if (i >= 0) ++cnt[i]; } };
@@ -100,7 +116,7 @@ struct RefsWorld : World {
 				if (!alive && want > 0) fail("destroyed-early", "after %s: object %d was destroyed while %ld holders still reference it", after, i, want);
 				if (alive && want == 0) fail("never-destroyed", "after %s: object %d has no holder left but is still alive (count %ld)", after, i, obj[i]->refs);
 			}
-			for (int k = 0; k < 4; ++k) if (lib[k] && lib_counted[k]) {
+			for (int k = 0; k < NK; ++k) if (lib[k] && lib_counted[k]) {
 				if (lib_model[k] > 0 && !ledger_covers(lib[k])) fail("destroyed-early", "after %s: library object kind %d was freed with %ld holders", after, k, lib_model[k]);
 			}
 		};
@@ -206,12 +222,17 @@ struct RefsWorld : World {
 				break;
 			}
 			case OP_LIB_NEW: {
-				int k = (int) (op.b % 4);
+				int k = (int) ((op.b + op.c) % NK);
 				if (lib[k]) break;
 				uint64_t fired = 0;
 				if (k == 0) { Sut su(failn); lib[k] = mpt_reply_deferrable(4, lib_send, 0); fired = g.fired; }
 				else if (k == 1) { Sut su(failn); lib[k] = mpt_rawdata_create(-1); fired = g.fired; }
 				else if (k == 2) { int v = 42; Sut su(failn); lib[k] = metatype::generic::create('i', &v); fired = g.fired; }
+				else if (k == 4 || k == 5) { std::string t(k == 4 ? 5 : 300, 'm'); const char *cs = t.c_str(); value v; v.set('s', &cs); Sut su(failn); lib[k] = mpt_meta_new(&v); fired = g.fired; }
+				else if (k == 6) { CArr a = {0}; { Sut su; mpt_array_append(AR(a), 12, "hello world"); } { Sut su(failn); lib[k] = mpt_meta_buffer(AR(a)); fired = g.fired; } { Sut su; mpt_array_clone(AR(a), 0); } }
+				else if (k == 7) { input *in; { Sut su(failn); in = mpt_output_remote(); fired = g.fired; } lib[k] = in ? static_cast<metatype *>(in) : 0; }
+				else if (k == 8) { io::stream::input *in; { Sut su(failn); in = io::stream::input::create(0); fired = g.fired; } lib[k] = in ? static_cast<metatype *>(in) : 0; }
+				else if (k == 9) { mpt::path pp; pp.sep = '.'; pp.assign = 0; { Sut su; mpt_path_set(&pp, "refs.view", -1); } { Sut su(failn); lib[k] = mpt_config_global(&pp); fired = g.fired; } }
 				else {
 					int ch = simio::new_chan(64); lib_fd = simio::new_fd(ch, ch, O_RDWR | O_NONBLOCK);
 					socket sk; sk._id = lib_fd;
@@ -223,11 +244,12 @@ struct RefsWorld : World {
 				if (fired) st.hit("fault:allocfail");
 				lib_model[k] = lib[k] ? 1 : 0;
 				log.ev("LIB_NEW kind %d%s -> %s", k, fired ? " allocfail" : "", lib[k] ? "ok" : "null");
+				if (getenv("VERIF_TRACE_Q")) log.ev("    ledger: %s; object at %p covered=%d", ledger_describe().c_str(), (void *) lib[k], (int) ledger_covers(lib[k]));
 				outcome = lib[k] ? 1 : 0;
 				break;
 			}
 			case OP_LIB_TAKE: {
-				int k = (int) (op.b % 4);
+				int k = (int) ((op.b + op.c) % NK);
 				if (!lib[k] || lib_model[k] > 3) break;
 				uintptr_t r; { Sut su; r = lib[k]->addref(); }
 				log.ev("LIB_TAKE kind %d -> %lu", k, (unsigned long) r);
@@ -236,13 +258,13 @@ struct RefsWorld : World {
 				break;
 			}
 			case OP_LIB_DROP: {
-				int k = (int) (op.b % 4);
+				int k = (int) ((op.b + op.c) % NK);
 				if (!lib[k]) break;
 				const void *base = lib[k];
 				int closes_before = k == 3 && simio::get(lib_fd) ? simio::get(lib_fd)->closes : 0;
 				{ Sut su; lib[k]->unref(); }
 				--lib_model[k];
-				bool freed = !ledger_covers(base);
+				bool freed = lib_counted[k] ? !ledger_covers(base) : lib_model[k] == 0;     // uncounted kinds: taken on trust here, watched by AddressSanitizer and the final ledger check of what they own
 				log.ev("LIB_DROP kind %d -> holders %ld, %s", k, lib_model[k], freed ? "destroyed" : "alive");
 				if (lib_model[k] > 0 && freed) fail("destroyed-early", "library object kind %d destroyed with %ld holders left", k, lib_model[k]);
 				if (lib_model[k] == 0 && !freed) fail("never-destroyed", "library object kind %d still allocated after its last reference was dropped", k);
@@ -381,7 +403,7 @@ struct RefsWorld : World {
 		for (int i = 0; i < 3; ++i) if (model[i] == 1 && g_live.count(all[(size_t) i])) { Sut su; obj[i]->unref(); model[i] = 0; }
 		check_pending();
 		for (int i = 0; i < 3; ++i) if (g_live.count(all[(size_t) i])) fail("never-destroyed", "object %d still alive after every holder dropped its reference (count %ld, addref %ld, unref %ld)", i, obj[i]->refs, obj[i]->addrefs, obj[i]->unrefs);
-		for (int k = 0; k < 4; ++k) while (lib[k] && lib_model[k] > 0) { { Sut su; lib[k]->unref(); } --lib_model[k]; }
+		for (int k = 0; k < NK; ++k) while (lib[k] && lib_model[k] > 0) { { Sut su; lib[k]->unref(); } --lib_model[k]; }
 		for (auto &x : bufh) { Sut su; mpt_array_clone(AR(x), 0); }
 		for (HObj *o : all) delete o;
 		if (ledger_live()) fail("never-destroyed", "%zu block(s) still allocated after every reference was dropped: %s", ledger_live(), ledger_describe().c_str());
